@@ -99,8 +99,55 @@ fn run_on(idx: u64, mode: u64, debug: bool, int_at: Option<u64>, vect: u8, reuse
     Ok((steps, maxdepth))
 }
 
+// ---- strict mode: a step that strict mode rejects has executed nothing, so it cannot have entered or left a subroutine
+/// words 0-8 at position k of the program: JSR +0, JSR +1, RET, LD R7 <- never-written cell, LD R7 <- cell pointing at never-written memory, ADD, JSRR R1, TRAP x21, JMP R1
+fn strict_word(sel: u64, k: u16) -> u16 {
+    let off = |cell: u16| (cell.wrapping_sub(0x3000 + k + 1)) & 0x1FF;
+    match sel { 0 => 0x4800, 1 => 0x4801, 2 => 0xC1C0, 3 => 0x2E00 | off(0x3010), 4 => 0x2E00 | off(0x3011), 5 => 0x1021, 6 => 0x4040, 7 => 0xF021, _ => 0xC040 }
+}
+fn run_strict(idx: u64, debug: bool) -> Result<(u64, bool), (String, String)> {
+    let mut m = Machine::user();
+    m.debug_frames = debug;
+    m.regs = [0x0041, 0x3004, 2, 3, 4, 5, 0xFD00, 0x3006];
+    m.uninit_regs = 0x80; // R7 never written
+    let mut words = vec![]; let mut i = idx;
+    for k in 0..4u16 { words.push(strict_word(i % 9, k)); i /= 9; }
+    for (k, w) in words.iter().enumerate() { m.pokes.push((0x3000 + k as u16, *w)); }
+    for k in 4..12u16 { m.pokes.push((0x3000 + k, 0xF025)); }
+    m.pokes.push((0x3011, 0x5000));
+    let what = format!("strict-mode program {words:x?} debug_frames={debug} (R7, x3010 and x5000 never written)");
+    let mut ms = m.clone(); ms.strict = true;
+    let (mut s, mut n) = (build(&ms), build(&m));
+    let mut rejected = false; let mut steps = 0;
+    for _ in 0..40 {
+        let pre = s.sim.frame_stack.len();
+        let pre_frames = s.sim.frame_stack.frames().map(|f| f.len());
+        let rs = match catch(|| s.sim.step_in()) { Ok(r) => r, Err(p) => return Err((format!("panic:{}", panic_site(&p)), format!("{what}: {p}"))) };
+        steps += 1;
+        match rs {
+            Ok(()) => {
+                let rn = match catch(|| n.sim.step_in()) { Ok(r) => r, Err(p) => return Err((format!("panic:{}", panic_site(&p)), format!("{what}: {p}"))) };
+                if rn.is_err() { break; }
+                if s.sim.frame_stack.len() != n.sim.frame_stack.len() { return Err(("strict:depth-differs".into(), format!("{what}: after step {steps} the strict machine is at depth {}, the non-strict one at {}", s.sim.frame_stack.len(), n.sim.frame_stack.len()))); }
+                if s.sim.pc == n.sim.pc && s.sim.instructions_run == n.sim.instructions_run && s.sim.mem[s.sim.pc].get() == 0xF025 && steps > 6 { break; }
+            }
+            Err(e) => {
+                let strict_err = format!("{e:?}").starts_with("Strict");
+                if strict_err {
+                    rejected = true;
+                    if s.sim.frame_stack.len() != pre || s.sim.frame_stack.frames().map(|f| f.len()) != pre_frames {
+                        return Err(("strict:rejected-step-changed-frames".into(), format!("{what}: step {steps} was rejected with {e:?} (nothing executed) but the frame depth went from {pre} to {}", s.sim.frame_stack.len())));
+                    }
+                }
+                break;
+            }
+        }
+    }
+    Ok((steps, rejected))
+}
+
 pub fn run_engine(ctx: &Ctx) -> Report {
-    let mut rep = Report::new("every program of 4 instructions over {JSR +0, JSR +1, JSRR R1, TRAP x21, TRAP x25, RET (= JMP R7), JMP R1, RTI, ADD} (6561 programs, unbalanced returns included) followed by a HALT sled x {user/virtual traps, user/real traps, supervisor/virtual with a prepared stack for RTI} x debug frames on/off x {no interrupt, one vectored interrupt (vector x90, or x21 whose low byte equals a trap vector with a built-in signature) raised at each of the first 10 (thorough 16) polls}; calling-convention (2 params, prepared stack) and pass-by-register signatures registered for 5 callee addresses; and every program again on a simulator that first ran another program to a stop two calls deep (with the opposite debug_frames setting) and was reset(); run in lock-step with RefLC3; after every step len() = calls - returns saturating, is_empty(), and with debug frames the entry list (caller address, callee/vector, kind, arguments per signature, frame pointer). non-trivial = runs that reach depth >= 2");
+    let mut rep = Report::new("every program of 4 instructions over {JSR +0, JSR +1, JSRR R1, TRAP x21, TRAP x25, RET (= JMP R7), JMP R1, RTI, ADD} (6561 programs, unbalanced returns included) followed by a HALT sled x {user/virtual traps, user/real traps, supervisor/virtual with a prepared stack for RTI} x debug frames on/off x {no interrupt, one vectored interrupt (vector x90, or x21 whose low byte equals a trap vector with a built-in signature) raised at each of the first 10 (thorough 16) polls}; calling-convention (2 params, prepared stack) and pass-by-register signatures registered for 5 callee addresses; and every program again on a simulator that first ran another program to a stop two calls deep (with the opposite debug_frames setting) and was reset(); strict mode: every program of 4 over {JSR +0, JSR +1, RET, LD R7 from a never-written cell, LD R7 from a pointer to never-written memory, ADD, JSRR, TRAP x21, JMP R1} on a strict and a non-strict simulator side by side: equal depth while both accept, and a step that strict mode rejects leaves depth and frame list unchanged; run in lock-step with RefLC3; after every step len() = calls - returns saturating, is_empty(), and with debug frames the entry list (caller address, callee/vector, kind, arguments per signature, frame pointer). non-trivial = runs that reach depth >= 2");
     let polls = ctx.pick(10u64, 16u64);
     let stride = ctx.pick(3u64, 1u64);
     let nprog = 6561u64.div_ceil(stride);
@@ -128,6 +175,16 @@ pub fn run_engine(ctx: &Ctx) -> Report {
         }
     });
     rep.absorb(r);
+    let r = sweep(ctx, 6561 * 2, 32, |k, acc| {
+        let (idx, debug) = (k / 2, k % 2 == 1);
+        acc.evals += 1; acc.traces += 1; acc.count("strict_programs", 1);
+        match run_strict(idx, debug) {
+            Ok((steps, rej)) => { acc.transitions += steps; if rej { acc.count("strict_rejections", 1); } }
+            Err((sig, d)) => acc.violation(sig, format!("s:{idx}:{}", debug as u8), d),
+        }
+    });
+    rep.absorb(r);
+    rep.require(rep.acc.get("strict_rejections") > 500, "strict mode rejected steps inside subroutines");
     rep.bound("programs", Json::i(nprog)); rep.bound("interrupt_polls", Json::i(polls));
     rep.require(rep.acc.nontrivial > 10_000, "nested frames were reached");
     rep.assume("exception entries under real traps and RTI in user mode under ignore_privilege end the comparison (statement silent)");
@@ -135,6 +192,7 @@ pub fn run_engine(ctx: &Ctx) -> Report {
 }
 pub fn replay(case: &str) -> Option<String> {
     let p: Vec<&str> = case.split(':').collect();
+    if p.first() == Some(&"s") { return run_strict(p.get(1)?.parse().ok()?, *p.get(2)? == "1").err().map(|(s, d)| format!("[{s}] {d}")); }
     let at: i64 = p.get(3)?.parse().ok()?;
     run_on(p.first()?.parse().ok()?, p.get(1)?.parse().ok()?, *p.get(2)? == "1", if at < 0 { None } else { Some(at as u64) }, p.get(4).and_then(|x| x.parse().ok()).unwrap_or(0x90), p.get(5) == Some(&"r")).err().map(|(s, d)| format!("[{s}] {d}"))
 }
